@@ -300,6 +300,18 @@ def gen_c06_tiny_handshake(r):
     return g
 
 
+def gen_c20_mute_block(r):
+    """Four connections that never say a word are accepted first; the only seeder keeps trying to
+    connect in every 10 s. While the four are there it is turned away (admission rule); once they
+    have been dropped for silence (three keep-alive intervals) and their table entries released, it
+    gets in and the download completes - some 370 s after the start, in real time."""
+    g, n = gen_geometry(r)
+    peers = [dict(port=7300 + j, id="-FK03%02d-abcdefghijkl" % j, incoming=True, have=[False] * n, seed=0, kind="mute", connect_delay_ms=100 + 20 * j, hold_s=500) for j in range(4)]
+    peers.append(dict(port=7001, id="-FK0000-abcdefghijkl", incoming=True, have=[True] * n, seed=r.getrandbits(32), chunk=0, latency_ms=0, unchoke_delay_ms=0, connect_delay_ms=1500, retry_s=10, retry_for_s=440))
+    g.update(peers=peers, tracker_faults=[], tracker_port=8000, timeout_s=450, stall_s=1000, wait_hostile_s=0, family="mute_block")
+    return g
+
+
 def gen_c01_mislabel(r):
     """An honest seeder and one that answers the first two blocks of a piece with the right bytes
     under each other's offsets (in arrival order they still concatenate to the true piece)."""
@@ -391,6 +403,16 @@ def _judge_cell(cid, tag, asan, sc, res, m, shapes):
             if res.get("panics") or v == "client-died":
                 m["inconclusive"].append("%s: hostile name %r: %s %s" % (tag, sc["hostile_name"], v, res.get("panics")))
             return
+    if cid == "C20" and sc.get("family") == "mute_block":
+        _count(m, "%s_mute_block_runs" % tag.replace("-", "_"))
+        if v == "complete":
+            _count(m, "%s_seeder_admitted_after_silent_connections_were_dropped" % tag.replace("-", "_"))
+            m["counters"]["max:%s_mute_block_completed_after_s" % tag.replace("-", "_")] = max(m["counters"].get("max:%s_mute_block_completed_after_s" % tag.replace("-", "_"), 0), int(res.get("elapsed_s", 0)))
+        elif res.get("elapsed_s", 0) >= 420 and v in ("timeout", "stalled"):
+            _viol(m, "C20:%s:silent-connections-never-released" % tag, "four connections that never sent a byte were accepted at the start; %d s later a seeder that retries every 10 s is still turned away: their table entries were never released" % int(res.get("elapsed_s", 0)), wit)
+        else:
+            m["inconclusive"].append("%s: mute_block %s %s" % (tag, v, str(res.get("detail"))[:120]))
+        return
     if cid == "C20":
         bad = None
         comp = res.get("complete_at_s")
@@ -497,6 +519,7 @@ def e2e(cid, tier, seed, jobs, scale, outdir, m, log, asan=False):
     if cid == "C01" and not asan:
         scs += [gen_c01_mislabel(r) for _ in range(4 if tier == "quick" else 60)]
     if cid == "C20" and not asan and tier == "thorough":
+        scs += [gen_c20_mute_block(r) for _ in range(4)]
         scs += [gen_c20(r, long=True) for _ in range(10)] + [gen_c20(r, silent=True) for _ in range(8)]
     if cid == "C19" and not asan:
         # longer runs of failures: the real HTTP client's retry loop must keep going
